@@ -275,9 +275,20 @@ func (sc *Scenario) RunAll(seed uint64, thorough bool, n int, workers int) *Resu
 					}
 					last[w] = p
 					if stuck[w] >= 24 { // 2 minutes without finishing one run
-						fmt.Fprintf(os.Stderr, "WATCHDOG: %s run %d (seed %d) did not finish within 120s; "+
-							"the code under test may not terminate (see C05). Exiting 2 (inconclusive).\n",
-							sc.ID, atomic.LoadInt64(&current[w]), seed)
+						run := uint64(atomic.LoadInt64(&current[w]))
+						if site := stuckInLibrary(); site != "" {
+							// A call into the library that takes microseconds has not
+							// returned for two minutes and its goroutine is executing
+							// library code: the call does not return. Every property
+							// here presupposes that calls return; report it, with a
+							// replay file that regenerates the run's tape from its seed.
+							path := sc.writeHangReplay(seed, run, thorough, site)
+							fmt.Printf("VIOLATION property=%s replay=%s\n  signature: %s/does-not-return/%s\n  detail: run %d of seed %d has been executing library code for 120s without returning (innermost library frame: %s); bounded work is C05's subject, where the same defect is decided by a deterministic step meter\n",
+								sc.ID, path, sc.ID, site, run, seed, site)
+							os.Exit(1)
+						}
+						fmt.Fprintf(os.Stderr, "WATCHDOG: %s run %d (seed %d) did not finish within 120s and is not inside library code: harness trouble. Exiting 2 (no verdict).\n",
+							sc.ID, run, seed)
 						os.Exit(2)
 					}
 				}
@@ -399,4 +410,44 @@ func Workers() int {
 		w = 16
 	}
 	return w
+}
+
+// stuckInLibrary inspects all goroutine stacks and returns the innermost frame
+// of the library under test on a goroutine that is currently RUNNING a simulated
+// run (i.e. spinning inside the library), or "" when there is none.
+func stuckInLibrary() string {
+	buf := make([]byte, 8<<20)
+	n := runtime.Stack(buf, true)
+	for _, g := range strings.Split(string(buf[:n]), "\n\n") {
+		if !strings.Contains(g, "verif/sim.(*Scenario).Execute") {
+			continue
+		}
+		first := g
+		if i := strings.Index(g, "\n"); i >= 0 {
+			first = g[:i]
+		}
+		if !strings.Contains(first, "[running]") && !strings.Contains(first, "[runnable]") {
+			continue // blocked (I/O, channel, lock): not a spin in the library
+		}
+		if site := mqSite([]byte(g)); site != "outside-mq" {
+			return site
+		}
+	}
+	return ""
+}
+
+func (sc *Scenario) writeHangReplay(seed, run uint64, thorough bool, site string) string {
+	tier := "quick"
+	if thorough {
+		tier = "thorough"
+	}
+	rp := Replay{Property: sc.ID, Seed: seed, Run: run, Tier: tier, Regenerate: true,
+		Signature: sc.ID + "/does-not-return/" + site,
+		Detail:    "the run's tape is regenerated from (seed, run); the run does not return from library code (" + site + ")", Tape: []uint64{}}
+	dir := filepath.Join(sc.OutDir, "replays")
+	os.MkdirAll(dir, 0o755)
+	path := filepath.Join(dir, fmt.Sprintf("%s-%d-%d-hang.json", sc.ID, seed, run))
+	b, _ := json.MarshalIndent(rp, "", " ")
+	os.WriteFile(path, b, 0o644)
+	return path
 }
